@@ -43,7 +43,10 @@ theorem fixed_window_runs_le (p : Rate.Params) (hp : 0 < p.period) (calls : List
   rw [List.all_eq_true]
   exact fun w hw => Rate.windowHolds_of_runsFirst (h w hw)
 
-/-- **At most `limit` runs per `period` whenever `ttl ≥ period`.**  If the ban is not shorter than the
+/-- **At most `limit` runs per `period` whenever `ttl ≥ period`.**  *Reading fixed here:* "per `period`" of
+the property is per counter window, i.e. per stretch `[s, s + period)` that starts with the first counted
+call `s` of a window — not per arbitrary sliding interval, which no fixed-window limiter bounds by `limit`.
+If the ban is not shorter than the
 period, every counter window lasts at least `period`, the windows follow each other in time, and so the
 stretch of length `period` that starts with the first counted call of any window contains at most
 `limit` runs of the function.  (Stretches that start elsewhere may straddle two windows and contain up
@@ -61,7 +64,10 @@ theorem fixed_window_per_period (p : Rate.Params) (hp : 0 < p.period) (httl : p.
 /-! ## `slice_rate_limit` (sliding log) -/
 
 /-- **Sliding window.**  For strictly increasing call instants, every half-open interval of length
-`period` contains at most `limit` runs of the function — for every history and every `t`. -/
+`period` contains at most `limit` runs of the function — for every history and every `t`.
+*Reading fixed here:* "any interval of length `period`" of the property is the half-open `[t, t + period)`;
+the closed reading is `sliding_closed` (all `limit ≥ 2`) and fails at exactly one point for `limit = 1`
+(`sliding_closed_limit_one`: two calls exactly `period` apart, nothing in between). -/
 theorem sliding (p : SlideRate.Params) (hp : 0 < p.period) (calls : List Nat) (hinc : StrictlyIncreasing calls)
     (t : Nat) : runsIn (SlideRate.run p TtlMap.init calls) t p.period ≤ p.limit :=
   (SlideRate.run_bound_init p hp calls hinc t).1
